@@ -221,8 +221,9 @@ def listAt (h : Heap) : HV → Option (Addr × List Val)
   | .ref a => (match h.valAt a with | .list l => some (a, l) | _ => none)
   | .imm _ => none
 
-/-- semantics on the heap; `old` is the state object handed to the command (its metadata cell holds the variables) -/
-def cmdH (h : Heap) (old : HState) (name : String) (args : List HV) : CmdOut :=
+/-- semantics on the heap; `old` is the state object handed to the command (its metadata cell holds the variables), `ctx` the
+context's variables (`Vars(state.vars)` of the predecessor state *before* it was cloned: the very objects of that state) -/
+def cmdH (h : Heap) (old : HState) (ctx : List (Str × HV)) (name : String) (args : List HV) : CmdOut :=
   let m := h.metaAt old.md
   match name, args with
   | "one", [] => .ok h (.imm (.int 1)) false true
@@ -260,6 +261,13 @@ def cmdH (h : Heap) (old : HState) (name : String) (args : List HV) : CmdOut :=
     (match strOf h k with
      | some k =>
        (match (getVar m.vars k).bind (listAt h) with
+        | some (a, l) => .ok (h.write a (.val (.list (l ++ [absHV h v])))) old.data false true
+        | none => .fail)
+     | none => .fail)
+  | "cvapp", [k, v] =>                              -- `context.vars[name].append(v); return x`: mutates the PREDECESSOR state's object
+    (match strOf h k with
+     | some k =>
+       (match (getVar ctx k).bind (listAt h) with
         | some (a, l) => .ok (h.write a (.val (.list (l ++ [absHV h v])))) old.data false true
         | none => .fail)
      | none => .fail)
@@ -309,7 +317,7 @@ mutual
             | (w3, none) => (w3, .fail)
             | (w3, some args) =>
               let w3 := { w3 with calls := w3.calls ++ [callText act.name (absHV w3.heap old.data) (args.map (absHV w3.heap))] }
-              match cmdH w3.heap old (String.ofList act.name) args with
+              match cmdH w3.heap old pm.vars (String.ofList act.name) args with
               | .fail => (w3, .fail)
               | .ok h4 data vol caching =>
                 -- the state object the command returns is `old` with the new data; its metadata dictionary is updated in place
@@ -383,6 +391,10 @@ def cmdV (st : RState) (name : String) (args : List Val) : Option RState :=
     (match getVarV st.vars k with
      | some (.list l) => some { st with vars := setVarV st.vars k (.list (l ++ [v])) }
      | _ => none)
+  | "cvapp", [.str k, _] =>                          -- the context's variables are not the state's: no effect on the meaning
+    (match getVarV st.vars k with
+     | some (.list _) => some st
+     | _ => none)
   | "vol", [] => some { st with volatile := true }
   | "nocache", [] => some { st with caching := false }
   | _, _ => none
@@ -416,6 +428,8 @@ inductive Op where
   | eval (q : List Act)
   /-- `R[i].data[:] = l` (in-place replacement of the content of the returned data object, if it is mutable) -/
   | mutData (i : Nat) (l : List Val)
+  /-- `R[i].data[0][:] = l` (in-place replacement of the content of a list nested inside the returned data) -/
+  | mutInner (i : Nat) (l : List Val)
   /-- `R[i].vars[name][:] = l` -/
   | mutVar (i : Nat) (name : Str) (l : List Val)
   /-- `R[i].metadata["vars"][name] = v` (assignment in the returned variable dictionary) -/
@@ -444,6 +458,13 @@ def step (s : Hist) : Op → Hist
        (match listAt s.w.heap st.data with
         | some (a, _) => { s with w := { s.w with heap := s.w.heap.write a (.val (.list l)) } }
         | none => s)
+     | none => s)
+  | .mutInner i l =>
+    (match s.nth i with
+     | some st =>
+       (match listAt s.w.heap st.data with
+        | some (a, .list _ :: rest) => { s with w := { s.w with heap := s.w.heap.write a (.val (.list (.list l :: rest))) } }
+        | _ => s)
      | none => s)
   | .mutVar i name l =>
     (match s.nth i with
